@@ -1,5 +1,5 @@
 SPECIFICATION Spec
 CONSTANTS
-  Part = "rules"
+  Part = "small"
   Variant = "ignore_device_switch"
 INVARIANTS DisabledMeansUnfiltered
